@@ -285,6 +285,7 @@ rnode* gen_tree(struct vh_rng* r, const struct gen_cfg* cfg);
 /* systematic trees: index -> tree, returns NULL past the end */
 rnode* gen_systematic(uint64_t idx);
 uint64_t gen_systematic_count(void);
+uint64_t gen_dict_count(void); /* the last gen_dict_count() indices are the dictionary of well-known encodings */
 /* neighbours of an encoding x (needs its head boundaries): calls cb for each */
 typedef void (*gen_bytes_cb)(const uint8_t* p, size_t n, void* ud);
 void gen_neighbours(const uint8_t* x, size_t n, bool full256, gen_bytes_cb cb, void* ud);
@@ -299,11 +300,14 @@ struct rec_event { int slot; uint64_t arg; const uint8_t* ptr; uint64_t len; };
 extern struct rec_event rec_ev[REC_MAX]; /* events since rec_reset (first REC_MAX) */
 extern int rec_n;                        /* number of callback invocations since rec_reset */
 extern const struct cbor_callbacks rec_table;
+struct cbor_callbacks rec_table_only(int slot); /* only that callback exists, every other slot is NULL */
 extern void* rec_expected_ctx;           /* callbacks check the context pointer they receive */
 extern int rec_bad_ctx;
 void rec_reset(void);
 
 /* nesting chains (C01 deep stage, C19) */
+#define CH_HEAVY_BYTES ((size_t)2 << 20)
+#define CH_HEAVY_MEMBERS ((size_t)400000)
 enum { CH_TAG, CH_DEFARR, CH_INDEFARR, CH_DEFMAP_KEY, CH_DEFMAP_VAL, CH_INDEFMAP_KEY, CH_INDEFMAP_VAL, CH_MIXED, CH_TAG_WIDE, CH_NKINDS };
 extern const char* const chain_names[CH_NKINDS];
 /* leaf: 0 scalar, 1 chunked byte string, 2 chunked text string (each one more open level),
